@@ -107,7 +107,7 @@ var stepPool = []string{
 	"fail", "fail", "fail", "fail", "fail", "fail",
 	"pedit", "pedit", "pedit", "pedit",
 	"pull", "pull", "pull", "push", "push", "sync", "sync",
-	"snap", "gc", "gc", "undo", "undo", "redo",
+	"snap", "gc", "gc", "undo", "undo", "redo", "redo",
 }
 
 var failModes = []string{"error", "error", "error", "panic", "panic", "schema", "schema", "size", "size"}
@@ -166,10 +166,11 @@ func genCase() *rapid.Generator[Case] {
 // Interpreter
 
 type runOpts struct {
-	// skipFailing executes the same history without its failing updates
-	// (twin run used to attribute a final D/P divergence).
-	skipFailing bool
-	noExcl      bool
+	// skip (twin run used to attribute a final D/P divergence): the indices
+	// of the steps whose Update failed in the main run; the twin leaves
+	// exactly those updates out and executes everything else identically.
+	skip   map[int]bool
+	noExcl bool
 }
 
 type outcome struct {
@@ -182,6 +183,10 @@ type outcome struct {
 	Abort string
 	// Diverged: D and P differ after the final exchange.
 	Diverged bool
+	// FailedSteps: indices of the steps whose Update failed.
+	FailedSteps map[int]bool
+	// TwinDeviated: an update that succeeded in the main run failed in the twin.
+	TwinDeviated bool
 }
 
 type world struct {
@@ -193,9 +198,18 @@ type world struct {
 	opts      runOpts
 
 	// bookkeeping for the non-trivial rule and the "next valid Update" oracle
+	// born remembers the version vector every local change carried when it
+	// was made, keyed by replica and clientSeq: the vector of a still pending
+	// change is not stable in the code under test (it shares its map with the
+	// document's clock and moves when a remote change is applied).
+	born [2]map[uint32]time.VersionVector
+
 	dUpdates        int  // Update calls made on D (successful or failing)
 	remoteArrived   bool // a remote pack/snapshot reached D after >= 1 local update
 	failedSinceGood bool // a failing update happened and no valid D update succeeded since
+	failedSteps     map[int]bool
+	cur             int
+	twinDeviated    bool
 }
 
 var errDeliberate = errors.New("c08: deliberate updater failure")
@@ -261,11 +275,12 @@ func (w *world) stamp(changes []*change.Change) {
 // the change (a missing entry counts as 0). It is never ahead of the minimum
 // version vector a server would hand out.
 func (w *world) safeVector() time.VersionVector {
+	w.track()
 	vs := []time.VersionVector{w.D.VersionVector(), w.P.VersionVector()}
-	for _, d := range []*document.Document{w.D, w.P} {
+	for i, d := range []*document.Document{w.D, w.P} {
 		for _, c := range d.CreateChangePack().Changes {
-			if c.ID().HasClocks() {
-				vs = append(vs, c.ID().VersionVector())
+			if v, ok := w.born[i][c.ClientSeq()]; ok {
+				vs = append(vs, v)
 			}
 		}
 	}
@@ -286,6 +301,21 @@ func (w *world) safeVector() time.VersionVector {
 		out[a] = m
 	}
 	return out
+}
+
+// track records the creation-time vector of every new pending change. It is
+// called after every step, i.e. before anything else can touch the clocks.
+func (w *world) track() {
+	for i, d := range []*document.Document{w.D, w.P} {
+		if w.born[i] == nil {
+			w.born[i] = map[uint32]time.VersionVector{}
+		}
+		for _, c := range d.CreateChangePack().Changes {
+			if _, ok := w.born[i][c.ClientSeq()]; !ok && c.ID().HasClocks() {
+				w.born[i][c.ClientSeq()] = c.ID().VersionVector().DeepCopy()
+			}
+		}
+	}
 }
 
 func prefix(a, n int) int {
@@ -383,6 +413,42 @@ func canonElement(e *api.JSONElement) {
 	}
 }
 
+// canonSimple re-encodes the embedded bytes of a container value carried by
+// an operation canonically: the converter encodes object members in Go map
+// order and nested protobuf maps non-deterministically, so two encodings of
+// the SAME unchanged change may differ byte-wise.
+func canonSimple(v *api.JSONElementSimple) {
+	if v == nil {
+		return
+	}
+	switch v.Type {
+	case api.ValueType_VALUE_TYPE_JSON_OBJECT, api.ValueType_VALUE_TYPE_JSON_ARRAY, api.ValueType_VALUE_TYPE_TREE:
+		var e api.JSONElement
+		if err := proto.Unmarshal(v.Value, &e); err != nil {
+			return
+		}
+		canonElement(&e)
+		if b, err := (proto.MarshalOptions{Deterministic: true}).Marshal(&e); err == nil {
+			v.Value = b
+		}
+	}
+}
+
+func canonPack(pb *api.ChangePack) {
+	for _, c := range pb.Changes {
+		for _, op := range c.Operations {
+			switch b := op.GetBody().(type) {
+			case *api.Operation_Set_:
+				canonSimple(b.Set.Value)
+			case *api.Operation_Add_:
+				canonSimple(b.Add.Value)
+			case *api.Operation_ArraySet_:
+				canonSimple(b.ArraySet.Value)
+			}
+		}
+	}
+}
+
 // rootFingerprint is a canonical encoding of the whole CRDT structure of the
 // authoritative root (live elements, tombstones, dead array slots, text and
 // tree nodes with their tickets), independent of map iteration order.
@@ -428,6 +494,7 @@ func observe(d *document.Document) (observation, error) {
 	if err != nil {
 		return o, err
 	}
+	canonPack(pb)
 	b, err := proto.MarshalOptions{Deterministic: true}.Marshal(pb)
 	if err != nil {
 		return o, err
@@ -643,6 +710,10 @@ func (w *world) failingUpdate(s Step) (*kit.Failure, string) {
 	}
 	w.logf("D FAILING update(%s) after %d edits %s -> %s", mode, len(descs), describeEdits(descs), what)
 	w.failedSinceGood = true
+	w.failedSteps[w.cur] = true
+	if w.opts.skip != nil {
+		w.twinDeviated = true
+	}
 	w.ev["fail_"+mode]++
 	if mutatedCount > 0 {
 		w.ev["fail_dirty"]++
@@ -752,12 +823,13 @@ func (w *world) validUpdate(s Step) (*kit.Failure, string) {
 }
 
 func (w *world) step(i int, s Step) (*kit.Failure, string) {
+	w.cur = i
 	w.ev["step_"+s.Op]++
 	switch s.Op {
 	case "edit":
 		return w.validUpdate(s)
 	case "fail":
-		if w.opts.skipFailing {
+		if w.opts.skip[i] {
 			if s.Probe {
 				return w.probe(), ""
 			}
@@ -864,10 +936,8 @@ func (w *world) step(i int, s Step) (*kit.Failure, string) {
 // sync is a full exchange: each side pushes all its pending changes and
 // receives all of the other side's in one pack, like a push-pull response.
 func (w *world) sync(gc bool) (*kit.Failure, string) {
+	w.track()
 	vec := time.NewVersionVector()
-	if gc {
-		vec = w.safeVector()
-	}
 	dp := w.D.CreateChangePack().Changes
 	pp := w.P.CreateChangePack().Changes
 	err, pan := guarded(func() error {
@@ -882,11 +952,32 @@ func (w *world) sync(gc bool) (*kit.Failure, string) {
 		w.stamp(dw)
 		w.stamp(pw)
 		if err := w.P.ApplyChangePack(change.NewPack(docKey,
-			change.NewCheckpoint(w.serverSeq, lastSeq(w.P, pp)), dw, vec.DeepCopy(), nil)); err != nil {
+			change.NewCheckpoint(w.serverSeq, lastSeq(w.P, pp)), dw, time.NewVersionVector(), nil)); err != nil {
 			return err
 		}
-		return w.D.ApplyChangePack(change.NewPack(docKey,
-			change.NewCheckpoint(w.serverSeq, lastSeq(w.D, dp)), pw, vec.DeepCopy(), nil))
+		if err := w.D.ApplyChangePack(change.NewPack(docKey,
+			change.NewCheckpoint(w.serverSeq, lastSeq(w.D, dp)), pw, time.NewVersionVector(), nil)); err != nil {
+			return err
+		}
+		if !gc {
+			return nil
+		}
+		// A following response without changes carries the minimum vector:
+		// the collection runs inside ApplyChangePack.
+		vec = w.safeVector()
+		if err := w.P.ApplyChangePack(change.NewPack(docKey,
+			change.NewCheckpoint(w.serverSeq, w.P.Checkpoint().ClientSeq), nil, vec.DeepCopy(), nil)); err != nil {
+			return err
+		}
+		before := w.D.GarbageLen()
+		if err := w.D.ApplyChangePack(change.NewPack(docKey,
+			change.NewCheckpoint(w.serverSeq, w.D.Checkpoint().ClientSeq), nil, vec.DeepCopy(), nil)); err != nil {
+			return err
+		}
+		if w.D.GarbageLen() < before {
+			w.ev["gc_purged"]++
+		}
+		return nil
 	})
 	w.logf("sync: D pushes %d, pulls %d (gc vector %s)", len(dp), len(pp), vec.Marshal())
 	if err != nil || pan != nil {
@@ -954,7 +1045,7 @@ func (w *world) snapshot(a int) (*kit.Failure, string) {
 }
 
 func newWorld(opts runOpts) (*world, error) {
-	w := &world{ev: map[string]int{}, opts: opts}
+	w := &world{ev: map[string]int{}, opts: opts, failedSteps: map[int]bool{}}
 	a1, err := time.ActorIDFromHex("0000000000000000000000d1")
 	if err != nil {
 		return nil, err
@@ -967,6 +1058,10 @@ func newWorld(opts runOpts) (*world, error) {
 	w.D.SetActor(a1)
 	w.P.SetActor(a2)
 	if err := prog.InitDoc(w.D); err != nil {
+		return nil, err
+	}
+	// The history starts after the initial schema: Undo never reaches into it.
+	if err := w.D.ClearHistory(); err != nil {
 		return nil, err
 	}
 	w.dUpdates = 1
@@ -983,9 +1078,15 @@ func run(c Case, opts runOpts) outcome {
 		return outcome{Fail: kit.Failf("HARNESS", "init: %v", err), Ev: map[string]int{}}
 	}
 	finish := func(f *kit.Failure, abort string) outcome {
-		o := outcome{Fail: f, Hist: w.hist, Ev: w.ev, Abort: abort}
+		o := outcome{Fail: f, Hist: w.hist, Ev: w.ev, Abort: abort, FailedSteps: w.failedSteps, TwinDeviated: w.twinDeviated}
 		if abort != "" {
 			w.ev["abort_"+abort]++
+			// Information only: a step outside the property failed (a pack
+			// could not be applied, undo failed, ...); the replica is broken
+			// and the case ends here.
+			if cf := w.checkCloneEqRoot("abort"); cf != nil {
+				w.ev["abort_left_clone_ne_root"]++
+			}
 		}
 		o.NonTrivial = w.ev["fail_dirty"] > 0 || w.ev["remote_between_local"] > 0
 		return o
@@ -995,6 +1096,7 @@ func run(c Case, opts runOpts) outcome {
 	}
 	for i, s := range c.Steps {
 		f, abort := w.step(i, s)
+		w.track()
 		if f != nil {
 			return finish(f, "")
 		}
@@ -1045,12 +1147,12 @@ func evaluate(c Case) outcome {
 	// concurrent peer edit, ArraySet on a moved element, ...) are not this
 	// property. Attribute: three more runs must diverge again and three twin
 	// runs without the failing updates must all converge.
-	if o.Ev["fail_error"]+o.Ev["fail_panic"]+o.Ev["fail_schema"]+o.Ev["fail_size"] == 0 {
+	if len(o.FailedSteps) == 0 {
 		o.Ev["final_diverged_without_failing_update"]++
 		return o
 	}
 	for i := 0; i < 3; i++ {
-		if t := run(c, runOpts{noExcl: noExcl, skipFailing: true}); t.Fail != nil || t.Abort != "" || t.Diverged {
+		if t := run(c, runOpts{noExcl: noExcl, skip: o.FailedSteps}); t.Fail != nil || t.Abort != "" || t.Diverged || t.TwinDeviated {
 			o.Ev["final_diverged_also_without_failing_updates"]++
 			return o
 		}
